@@ -22,7 +22,7 @@ fn prog_alpha() -> Vec<Vec<Op>> {
     ]
 }
 
-fn universes(n_min: usize, n_max: usize, max_special: usize, merges: bool) -> Vec<Dag> {
+pub fn universes(n_min: usize, n_max: usize, max_special: usize, merges: bool) -> Vec<Dag> {
     let alpha = prog_alpha();
     let mut out = Vec::new();
     for n in n_min..=n_max {
@@ -59,7 +59,7 @@ fn universes(n_min: usize, n_max: usize, max_special: usize, merges: bool) -> Ve
     out
 }
 
-fn histories(dag: &Dag, cut_alpha: &[Cut], f: &mut dyn FnMut(&[Ev])) {
+pub fn histories(dag: &Dag, cut_alpha: &[Cut], f: &mut dyn FnMut(&[Ev])) {
     all_histories(dag, cut_alpha, |h| {
         let mut evs = Vec::new();
         let n = h.order.len();
@@ -96,7 +96,7 @@ pub fn run(args: &Args) {
     };
     let mut families = Vec::new();
     for (name, dags, cuts) in fams {
-        let ex = run_all(&mut rep, name, &dags, oracles, false, |d, f| histories(d, &cuts, f));
+        let ex = run_all(&mut rep, name, &dags, oracles, false, |c, _| c != "hello", |d, f| histories(d, &cuts, f));
         families.push(json!({"family": name, "universes": dags.len(), "executions": ex}));
     }
     rep.require_nonzero("rejected_adds");
